@@ -8,7 +8,8 @@
   outer scope, so label lookup never leaves the current function scope).
 
   The parser performs these checks while it builds the tree, in source order, with the flags of the current `scope`;
-  `Ctx` is that scope.  `iterLabels` is carried for the specification only — the model never reads it.
+  `Ctx` is that scope.  `labelSet` of scope.go is the parameter `pending` (the labels directly in front of the statement), `iterLabels` the label
+  sets of the enclosing iteration statements (scope.isIterationLabel).
 -/
 namespace OttoVerif.C04
 
@@ -38,7 +39,7 @@ end
 
 structure Ctx where
   labels : List Nat := []        -- p.scope.labels
-  iterLabels : List Nat := []    -- (specification only) labels in the label set of an enclosing IterationStatement
+  iterLabels : List Nat := []    -- p.scope.iterLabels: labels in the label set of an enclosing IterationStatement
   inIter : Bool := false         -- p.scope.inIteration
   inSwitch : Bool := false       -- p.scope.inSwitch
   inFn : Bool := false           -- p.scope.inFunction
@@ -57,7 +58,7 @@ def accepts : Ctx → List Nat → S → Bool
   | c, _, .brk none => c.inIter || c.inSwitch                 -- statement.go:808
   | c, _, .brk (some l) => c.labels.contains l                 -- :826 hasLabel
   | c, _, .cont none => c.inIter                               -- :861
-  | c, _, .cont (some l) => c.labels.contains l && c.inIter    -- :872, :876
+  | c, _, .cont (some l) => c.labels.contains l && (c.inIter && c.iterLabels.contains l)   -- hasLabel, then inIteration && isIterationLabel
   | c, _, .ret => c.inFn                                       -- :319
   | c, _, .block b => acceptsL c b
   | c, _, .if1 t => accepts c [] t
